@@ -15,7 +15,7 @@ use swc_ecma_codegen::Config;
 use swc_ecma_codegen::{Emitter, text_writer::JsWriter};
 
 use crate::RuntypeUUID;
-use crate::ast::json::Json;
+use crate::ast::json::{object_lit_key, Json};
 use crate::ast::runtype::CustomFormat;
 use crate::ast::runtype::DebugPrintCtx;
 use crate::ast::runtype::TplLitTypeItem;
@@ -517,11 +517,7 @@ fn runtype_any_of_discriminated(
 
                 PropOrSpread::Prop(
                     Prop::KeyValue(KeyValueProp {
-                        key: PropName::Str(Str {
-                            span: DUMMY_SP,
-                            value: current_key.clone().into(),
-                            raw: None,
-                        }),
+                        key: object_lit_key(&current_key),
                         value: print_runtype(&schema, named_schemas, ctx).into(),
                     })
                     .into(),
@@ -561,11 +557,7 @@ fn runtype_any_of_discriminated(
 
                 PropOrSpread::Prop(
                     Prop::KeyValue(KeyValueProp {
-                        key: PropName::Str(Str {
-                            span: DUMMY_SP,
-                            value: current_key.clone().into(),
-                            raw: None,
-                        }),
+                        key: object_lit_key(&current_key),
                         value: print_runtype(&schema, named_schemas, ctx).into(),
                     })
                     .into(),
@@ -1043,11 +1035,7 @@ fn print_runtype(schema: &Runtype, named_schemas: &[NamedSchema], ctx: &mut Prin
                     .map(|(key, value)| {
                         PropOrSpread::Prop(
                             Prop::KeyValue(KeyValueProp {
-                                key: PropName::Str(Str {
-                                    span: DUMMY_SP,
-                                    value: key.clone().into(),
-                                    raw: None,
-                                }),
+                                key: object_lit_key(&key),
                                 value: value.clone().into(),
                             })
                             .into(),
@@ -1105,11 +1093,7 @@ fn build_parsers_input(
             .map(|(key, value)| {
                 PropOrSpread::Prop(
                     Prop::KeyValue(KeyValueProp {
-                        key: PropName::Str(Str {
-                            span: DUMMY_SP,
-                            value: key.into(),
-                            raw: None,
-                        }),
+                        key: object_lit_key(&key),
                         value: value.into(),
                     })
                     .into(),
@@ -1138,11 +1122,7 @@ fn named_runtypes(named_schemas: &[NamedSchema], ctx: &mut PrintContext) -> Expr
             .map(|(key, value)| {
                 PropOrSpread::Prop(
                     Prop::KeyValue(KeyValueProp {
-                        key: PropName::Str(Str {
-                            span: DUMMY_SP,
-                            value: ctx.print_rt_name(&key).into(),
-                            raw: None,
-                        }),
+                        key: object_lit_key(&ctx.print_rt_name(&key)),
                         value: value.into(),
                     })
                     .into(),
